@@ -153,7 +153,7 @@ def materialise_assembly(case):
     for attempt in range(50):
         # some overhang choices cannot be embedded without creating a further site; draw again
         ov = gen.gen_overhangs(rng, k, nm + 1, forbid=(site, rc(site)), palindromes=opts.get("palindromes", 0.5))
-        if nm >= 2 and rng.random() < 0.15:
+        if nm >= 2 and opts.get("rc_closing", True) and rng.random() < 0.15:
             # the vector's upstream overhang is the reverse complement of an inner junction: module start overhangs are still
             # pairwise distinct and non-complementary, so the chain is complete and unambiguous for the library's rules
             j = rng.randint(1, nm - 1)
